@@ -19,6 +19,9 @@ def run(tier: str, seed: int, replay=None) -> int:
             "(translator/t_symeval.py, t_symbolic.py) and proved equal to the model (Eql/EvalSourceProofs.v, Eql/DecisionsProofs.v)",
             "harness/eqlgen.py (generator) and harness/eqlcheck.py; the fragment of every generated case is the flag case_in_F02 COMPUTED IN COQ (theorem C02_fragment_flag: inside it the model's rows are a Permutation of the Spec's enumeration)",
             "atomic comparison semantics apply_op / py_eq (Eql/Syntax.v) shared by model and Spec",
+            "predicate bridge: hand-written model Eql/PredCond.v (peval: Eql/Eval.v's operators over comparison and predicate-call atoms; "
+            "the call atom mirrors the methods of pin set `pred`, checked by C12), Spec psat, theorems Props/C02b.v built and their Print "
+            "Assumptions collected by the predicate stream; harness/eqlpred.py builds the cases, the six functions' Coq readings are std_preds (Eql/PredCondShow.v)",
         ],
         assume=[
             "scope of the property: negation-normal conditions over comparisons with and_, and or_ only between conditions over the same "
@@ -31,4 +34,6 @@ def run(tier: str, seed: int, replay=None) -> int:
               "distinct = distinct (world, domains, query); non-trivial = has a condition and a non-empty answer. Plus a "
               "predicate stream (harness/eqlpred.py, 400 quick / 6000 thorough): conditions over int variables that mix "
               "comparisons with symbolic-function calls under and_/not_ and or_ between same-variable conditions, compared as "
-              "multisets with a direct Python evaluation (no Coq model: the condition syntax has no predicate calls)"))
+              "multisets three ways -- implementation, model and Spec of Eql/PredCond.v evaluated inside Coq (Props/C02b.v; ~15% of the cases "
+              "lie outside the fragment: Union / negated compound, implementation vs model only) -- with the direct Python evaluation kept "
+              "as a cross-check of the Coq Spec"))
